@@ -134,6 +134,8 @@ PREDS = {
     "rpow": lambda params: (lambda v: (2 ** (v & 3)) == params[0]),
     "rshift": lambda params: (lambda v: (params[0] >> (v & 7)) & 1 == 1),
     # | ^ and & used as bitwise operators on integers (not as stand-ins for or / and), also with a non-zero left operand
+    "halves": lambda params: (lambda v: (v // 2) * 2 == v - params[0]),
+    "truediv": lambda params: (lambda v: (v / 4) == params[0]),
     "bitor": lambda params: (lambda v: (v | params[0]) == params[1]),
     "rbitor": lambda params: (lambda v: (params[0] | v) & params[1] == params[1]),
     "bitxor": lambda params: (lambda v: ((v ^ params[0]) & params[1]) != 0),
@@ -177,7 +179,13 @@ def mk_validator(case):
     if p == "rsub":
         return C.ExprValidator(sub, (params[0] - C.obj_) > params[1]), "obj"
     if p == "rdiv":
+        if case.get("form") == "check":
+            return C.Struct("x" / sub, C.Check((C.this.x != 0) & ((params[0] // (C.this.x + (C.this.x == 0))) == params[1]))), "check"
         return C.ExprValidator(sub, (C.obj_ != 0) & ((params[0] // (C.obj_ + (C.obj_ == 0))) == params[1])), "obj"
+    if p == "halves":
+        return C.Struct("x" / sub, C.Check((C.this.x // 2) * 2 == C.this.x - params[0])), "check"
+    if p == "truediv":
+        return C.Struct("x" / sub, C.Check((C.this.x / 4) == params[0])), "check"
     if p == "rmod":
         return C.ExprValidator(sub, (C.obj_ != 0) & ((params[0] % (C.obj_ + (C.obj_ == 0))) == params[1])), "obj"
     if p == "rpow":
@@ -244,6 +252,21 @@ def case_validator(ctx, case):
     ctx.count("validator_instances")
     if pa and pr and ba and br:
         ctx.nontrivial("validator", case)
+    if form == "check":
+        # the same constraint in the generated-code implementation (the predicate is pasted into the source as text): it admits
+        # exactly the values the predicate admits, in both directions
+        dc = outcome(lambda: d.compile())
+        if dc[0] == "ok":
+            for pat in inputs:
+                v = sub.parse(pat)
+                want = bool(pred(v))
+                ctx.ev()
+                rp = outcome(lambda: dc[1].parse(pat))
+                rb = outcome(lambda: dc[1].build(dict(x=v)))
+                if (rp[0] == "ok") != want or (rb[0] == "ok") != want:
+                    ctx.violation("validator-compiled-differs:" + case["pred"], "compiled Check on %r: parse %s, build %s, the predicate %s" % (v, rp[0], rb[0], "holds" if want else "is false"), dict(case, input=tag(pat)))
+                    break
+            ctx.count("validator_instances_compiled")
 
 
 # ------------------------------------------------------------------ Enum / FlagsEnum / Mapping
@@ -582,6 +605,11 @@ def case_error(ctx, case):
             ctx.violation("error-swallowed-build:" + culprit(chain), "Error was activated during build under %s but the call ended with %r" % ("/".join(chain), res if res[0] == "exc" else "bytes " + res[1].hex()), case)
     else:
         ctx.count("error_not_reached_in_build")
+        # the value generated for the chain reaches the Error member unless a wrapper on the way never builds its inner construct (Peek),
+        # builds an earlier alternative first (Select2), or hands None to an inner wrapper that needs a value (a non-focused /
+        # anonymous member above another wrapper): everywhere else a build that does not end in ExplicitError has lost the Error
+        if not ({"Peek", "Select2"} & set(chain)) and all(w not in ("FocusedSeq", "StructAfterByte") for w in chain[:-1]) and res != ("exc", "ExplicitError"):
+            ctx.violation("error-not-reached-build:" + culprit(chain), "build under %s ended with %r without the Error member ever being built" % ("/".join(chain), res if res[0] == "exc" else "success"), case)
     if len(chain) >= 2:
         ctx.nontrivial("error", chain)
 
@@ -668,6 +696,68 @@ def case_index(ctx, case):
                     return
     ctx.count("index_validator_instances")
     ctx.nontrivial("index", case)
+
+
+def case_over_default(ctx, case):
+    """validators and label tables around a sub-construct that builds from nothing (Default): building with the value left out
+    either is refused or emits bytes that the same construct accepts back - what is serialised never violates the constraint"""
+    import construct as C
+    dv = case["default"]
+    sub = C.Default(C.Byte, dv)
+    forms = {"oneof": C.OneOf(sub, [1, 2, 3]), "noneof": C.NoneOf(sub, [9, 0]), "expr": C.ExprValidator(sub, C.obj_ < 5), "mapping": C.Mapping(sub, {"a": 1, "b": 2}),
+             "enum": C.Enum(sub, a=1, b=2), "flags": C.FlagsEnum(sub, r=1, w=2), "check": C.Struct("x" / sub, C.Check(C.this.x < 5))}
+    holds = {"oneof": lambda v: v in (1, 2, 3), "noneof": lambda v: v not in (9, 0), "expr": lambda v: v < 5, "mapping": lambda v: v in (1, 2), "enum": lambda v: True, "flags": lambda v: True,
+             "check": lambda v: v < 5}
+    for name, d in forms.items():
+        for how, v in (("none", None), ("omitted-in-struct", "omit")):
+            ctx.ev()
+            if how == "none":
+                r = outcome(lambda: d.build(None if name != "check" else {}))
+            else:
+                if name == "check":
+                    continue
+                s2 = C.Struct("h" / C.Byte, "v" / d)
+                r = outcome(lambda: s2.build(dict(h=1)))
+            if r[0] != "ok":
+                continue                       # refused: fine
+            raw = r[1][-1] if how != "none" or name != "check" else r[1][0]
+            if name in ("oneof", "noneof", "expr", "mapping", "check") and not holds[name](raw):
+                ctx.violation("validator-build-emits-refused-value:" + name, "%s over Default(Byte, %d) built with the value left out emitted %s, which violates the constraint" % (name, dv, r[1].hex()), dict(case, form=name, how=how))
+                continue
+            back = outcome(lambda: (d.parse(r[1]) if how == "none" else C.Struct("h" / C.Byte, "v" / d).parse(r[1])))
+            if back[0] != "ok":
+                ctx.violation("validator-build-emits-refused-value:" + name, "%s over Default(Byte, %d) built with the value left out emitted %s, which the same construct refuses to parse (%s)" % (name, dv, r[1].hex(), back[1]), dict(case, form=name, how=how))
+                continue
+    ctx.count("validators_over_default")
+    ctx.nontrivial("over-default", dv)
+
+
+def case_const_noncanonical(ctx, case):
+    """Const over a sub-construct that has several encodings of one value: only the exact encoding of the constant (the one
+    build emits) is accepted on parse, not another encoding that the sub-construct maps to the same value"""
+    import construct as C
+    forms = {"varint": (C.VarInt, 1, [b"\x81\x00", b"\x81\x80\x00"]), "varint0": (C.VarInt, 0, [b"\x80\x00"]), "zigzag": (C.ZigZag, -1, [b"\x81\x00"]),
+             "flag": (C.Flag, True, [b"\x02", b"\xff", b"\x80"]), "padded": (C.Padded(3, C.Byte), 5, [b"\x05\xff\xff", b"\x05\x00\x01"]),
+             "paddedstring": (C.PaddedString(4, "ascii"), "ab", [b"ab\x00x", b"ab\x00\x01"]), "aligned": (C.Aligned(4, C.Int16ub), 7, [b"\x00\x07\xaa\xbb"]),
+             "prefixed": (C.Prefixed(C.Byte, C.Byte), 9, [b"\x02\x09\xee", b"\x03\x09\x00\x00"]), "fixedsized": (C.FixedSized(3, C.Byte), 9, [b"\x09\x01\x02"])}
+    sub, value, alts = forms[case["which"]]
+    d = C.Const(value, sub)
+    enc = sub.build(value)
+    ctx.ev()
+    if outcome(lambda: d.build(None)) != ("ok", enc) or outcome(lambda: d.parse(enc)) != ("ok", value):
+        ctx.violation("const-parse-rejects-own-encoding", "Const(%r, %s): build(None) / parse of its encoding %s wrong" % (value, case["which"], enc.hex()), case)
+        return
+    for alt in alts:
+        ctx.ev()
+        if outcome(lambda: sub.parse(alt)) != ("ok", value):
+            ctx.count("alternative_encoding_not_accepted_by_the_subconstruct")
+            continue
+        r = outcome(lambda: d.parse(alt))
+        if r[0] == "ok":
+            ctx.violation("const-accepts-another-encoding-of-its-value", "Const(%r, %s).parse(%s) -> %r; the constant's encoding is %s" % (value, case["which"], alt.hex(), r[1], enc.hex()), dict(case, input=tag(alt)))
+            return
+    ctx.count("const_over_noncanonical_subconstructs")
+    ctx.nontrivial("const-noncanonical", case["which"])
 
 
 def case_const_contexts(ctx, case):
@@ -785,7 +875,7 @@ def case_isolation(ctx, case):
     ctx.nontrivial("isolation", which)
 
 
-KINDS = {"const-contexts": case_const_contexts, "isolation": case_isolation, "const": case_const, "validator": case_validator, "enum": case_enum, "enumbig": case_enum_big, "flags": case_flags,
+KINDS = {"over-default": case_over_default, "const-noncanonical": case_const_noncanonical, "const-contexts": case_const_contexts, "isolation": case_isolation, "const": case_const, "validator": case_validator, "enum": case_enum, "enumbig": case_enum_big, "flags": case_flags,
          "mapping": case_mapping, "error": case_error, "index": case_index}
 
 
@@ -823,8 +913,10 @@ def gen_cases(ctx):
                     continue
                 c = {"kind": "validator", "sub": sub, "pred": pred, "params": params, "coll": coll}
                 cases.append(c)
-            if pred in ("neq", "rshift", "bitor"):
+            if pred in ("neq", "rshift", "bitor", "rdiv"):
                 cases.append({"kind": "validator", "sub": sub, "pred": pred, "params": params, "form": "check"})
+        for pred, params in (("halves", [1]), ("halves", [0]), ("truediv", [2.5]), ("truediv", [3])):
+            cases.append({"kind": "validator", "sub": sub, "pred": pred, "params": params, "form": "check"})
         if not signed:
             for labels in ([["one", 1], ["two", 2], ["four", 4], ["eight", 8]], [["zero", 0]], [["a", 1], ["b", 255]], [["x", 3], ["y", 3]], [["lo", 0], ["hi", 255], ["mid", 128]]):
                 for form in ("Enum", "EnumClass"):
@@ -863,6 +955,10 @@ def gen_cases(ctx):
                 cases.append({"kind": "index", "form": form, "rep": rep_, "pred": pr})
     cases.append({"kind": "enumbig", "labels": [["one", 1], ["big", 2 ** 64]], "values": [tag(x) for x in big], "form": "Enum"})
     cases.append({"kind": "enumbig", "labels": [["one", 1]], "values": [tag(x) for x in big], "form": "FlagsEnum"})
+    for dv in (9, 0, 1, 7, 200):
+        cases.append({"kind": "over-default", "default": dv})
+    for which in ("varint", "varint0", "zigzag", "flag", "padded", "paddedstring", "aligned", "prefixed", "fixedsized"):
+        cases.append({"kind": "const-noncanonical", "which": which})
     for which in ("width", "branch", "swapped", "padded", "in-struct"):
         cases.append({"kind": "const-contexts", "which": which})
     for which in ("const-list", "const-listcontainer", "const-dict", "const-container", "const-bytearray", "const-enum", "flags", "struct-both"):
